@@ -105,6 +105,10 @@ type segRef struct {
 
 type opT struct {
 	isReg bool
+	// isPub (with isReg): not a hidden registration but a public down segment
+	// (segs[0]) inserted into the shared path DB by the control service
+	// (pathdb Insert, group id 0)
+	isPub bool
 	// registration
 	peer    addr.IA
 	gid     hiddenpath.GroupID
@@ -233,6 +237,22 @@ func genHistory(r *vgen.Rand, mutated bool) *history {
 	clock := 1
 	nops := r.Range(8, 18)
 	for i := 0; i < nops; i++ {
+		if r.Chance(1, 7) || i == 0 && r.Chance(1, 3) {
+			// the same segments are also around as public ones, in older, equal or
+			// newer versions than the hidden registrations
+			s := segRef{shape: r.Intn(len(h.shapes)), ver: r.Range(1, 4), typ: seg.TypeDown}
+			if increasing {
+				s.ver = clock + r.Range(-1, 1)
+				if s.ver < 1 {
+					s.ver = 1
+				}
+			}
+			if r.Bool() {
+				s.peers = r.Range(1, 2)
+			}
+			h.ops = append(h.ops, opT{isReg: true, isPub: true, segs: []segRef{s}})
+			continue
+		}
 		if r.Chance(11, 20) {
 			o := opT{isReg: true, verdict: !flaw()}
 			var g *grp
@@ -344,6 +364,11 @@ func execute(h *history, name string) ([]obsT, string) {
 				}
 				metas = append(metas, &seg.Meta{Segment: ps, Type: s.typ})
 			}
+			if o.isPub {
+				_, err := backend.Insert(ctx, metas[0])
+				out = append(out, obsT{isReg: true, ok: err == nil})
+				continue
+			}
 			reg := hiddenpath.RegistryServer{Groups: groups, DB: store,
 				Verifier: fakeVerifier{ok: o.verdict}, LocalIA: h.local}
 			err := reg.Register(ctx, hiddenpath.Registration{Segments: metas, GroupID: o.gid,
@@ -411,19 +436,22 @@ func simulate(h *history, strict bool) (answers []string, admitted int) {
 	}
 	for _, o := range h.ops {
 		if o.isReg {
-			g := group(o.gid)
-			if g == nil || !has(g.writers, o.peer) || !has(g.registries, h.local) || !o.verdict {
-				continue
+			gid := uint64(0)
+			if !o.isPub {
+				g := group(o.gid)
+				if g == nil || !has(g.writers, o.peer) || !has(g.registries, h.local) || !o.verdict {
+					continue
+				}
+				down := true
+				for _, s := range o.segs {
+					down = down && s.typ == seg.TypeDown
+				}
+				if !down {
+					continue
+				}
+				admitted++
+				gid = o.gid.ToUint64()
 			}
-			down := true
-			for _, s := range o.segs {
-				down = down && s.typ == seg.TypeDown
-			}
-			if !down {
-				continue
-			}
-			admitted++
-			gid := o.gid.ToUint64()
 			for _, s := range o.segs {
 				e := find(s.shape)
 				switch {
@@ -498,7 +526,10 @@ func caseTerm(h *history, obs []obsT, known bool) string {
 	cfg := vgen.App("mkcfg", vgen.List(gs), iaT(h.local))
 	ops := make([]string, len(h.ops))
 	for i, o := range h.ops {
-		if o.isReg {
+		if o.isPub {
+			ops[i] = vgen.App("OPub", vgen.App("mkseg", vgen.N(uint64(o.segs[0].shape)),
+				fmt.Sprintf("%d%%Z", o.segs[0].ver), vgen.N(uint64(o.segs[0].typ))))
+		} else if o.isReg {
 			segs := vgen.ListOf(o.segs, func(s segRef) string {
 				return vgen.App("mkseg", vgen.N(uint64(s.shape)),
 					fmt.Sprintf("%d%%Z", s.ver), vgen.N(uint64(s.typ)))
@@ -530,7 +561,10 @@ func caseTerm(h *history, obs []obsT, known bool) string {
 func describe(h *history, obs []obsT) any {
 	var ops []any
 	for i, o := range h.ops {
-		if o.isReg {
+		if o.isPub {
+			ops = append(ops, map[string]any{"op": "public-insert", "seg": fmt.Sprint(o.segs[0]),
+				"impl_ok": obs[i].ok})
+		} else if o.isReg {
 			ops = append(ops, map[string]any{"op": "register", "peer": o.peer.String(),
 				"group": o.gid.String(), "segs": fmt.Sprint(o.segs), "verifies": o.verdict,
 				"impl_ok": obs[i].ok})
@@ -570,7 +604,7 @@ func main() {
 		"(real signed-format segments) in versions 1..; mostly admissible ops, each ingredient flawed with " +
 		"p=1/14 (every 4th history: p=1/4): unknown/zero group, non-writer, non-member, local AS not a registry, " +
 		"non-down segment, failing verification, no/duplicate group ids, wildcard/zero-ISD destinations, empty " +
-		"registrations, stale versions, refreshed versions with changed peer entries (other FullID); non-trivial = at least one admitted registration and one answered request " +
+		"registrations, stale versions, refreshed versions with changed peer entries (other FullID), public inserts of the same segments (group id 0) into the shared DB in older/equal/newer versions; non-trivial = at least one admitted registration and one answered request " +
 		"returning segments"
 	rng := vgen.NewRand(run.Seed)
 	n := run.Count(1000, 20000)
@@ -600,6 +634,8 @@ func main() {
 		answered, served := 0, 0
 		for j, o := range obs {
 			switch {
+			case h.ops[j].isPub:
+				run.Tally(fmt.Sprintf("public-insert:ok=%v", o.ok))
 			case h.ops[j].isReg:
 				run.Tally(fmt.Sprintf("register:ok=%v", o.ok))
 			default:
